@@ -80,6 +80,15 @@ class _Helper:
         """`acc = []; for v in xs: acc.append(e); return acc` and `t = e; return t` are the expression helper `return e`."""
         from .model import _Canon
         b = self.body
+        # `if c: return a` / `return b` (or with else) is the expression helper `return a if c else b`
+        if len(b) in (1, 2) and isinstance(b[0], ast.If) and len(b[0].body) == 1 and isinstance(b[0].body[0], ast.Return) and b[0].body[0].value is not None:
+            other = None
+            if len(b) == 2 and not b[0].orelse and isinstance(b[1], ast.Return) and b[1].value is not None:
+                other = b[1].value
+            elif len(b) == 1 and len(b[0].orelse) == 1 and isinstance(b[0].orelse[0], ast.Return) and b[0].orelse[0].value is not None:
+                other = b[0].orelse[0].value
+            if other is not None:
+                self.body = b = [ast.copy_location(ast.Return(value=ast.copy_location(ast.IfExp(test=b[0].test, body=b[0].body[0].value, orelse=other), b[0])), b[0])]
         if len(b) == 3 and isinstance(b[2], ast.Return):
             r = _Canon._reroll(copy.deepcopy(b[0]), copy.deepcopy(b[1]))
             if r is not None:
@@ -298,7 +307,7 @@ class Inliner:
                 me.count += 1
                 new = _Rename(rename, subst).visit(copy.deepcopy(h.expr))
                 for x in ast.walk(new):                     # every node of the copy sits where the call was (not where the helper is defined)
-                    if isinstance(x, (ast.expr, ast.stmt)):
+                    if isinstance(x, (ast.expr, ast.stmt, ast.keyword, ast.arg)):
                         ast.copy_location(x, c)
                 return ast.copy_location(new, c)
 
